@@ -40,14 +40,21 @@ Section Aabb.
   Definition box_aabb (T : Pose F) (size : V3 F) : option (V3 F * V3 F) :=
     axis_aligned_bounding_box (convert_box_to_vertices T size).
 
+  (** _circle_extent (since /repo 53f58ad, finding F27):
+        sq = axis * axis
+        np.sqrt(np.array([sq[1] + sq[2], sq[0] + sq[2], sq[0] + sq[1]]))
+      the half extents sqrt(1 - axis**2) of a unit circle with the given unit axis, computed from
+      the other two components (1 - axis**2 cancels for an almost aligned axis) *)
+  Definition circle_extent (axis : V3 F) : V3 F :=
+    let sq := vmul axis axis in
+    vsqrt (V (vy sq + vz sq) (vx sq + vz sq) (vx sq + vy sq)).
+
   (** cylinder_aabb:
         axis = cylinder2origin[:3, 2]
-        extent = 0.5 * length * np.abs(axis)
-                 + radius * np.sqrt(np.maximum(0.0, 1.0 - axis * axis))      (clamp: fix F24) *)
+        extent = 0.5 * length * np.abs(axis) + radius * _circle_extent(axis) *)
   Definition cylinder_aabb (T : Pose F) (radius length : F) : V3 F * V3 F :=
     let axis := col (rot T) 2 in
-    let extent := vadd (vscale (half * length) (vabs axis))
-                       (vscale radius (vsqrt (vclamp0 (vone_minus (vmul axis axis))))) in
+    let extent := vadd (vscale (half * length) (vabs axis)) (vscale radius (circle_extent axis)) in
     (vsub (trans T) extent, vadd (trans T) extent).
 
   (** capsule_aabb: extent = 0.5 * height * np.abs(capsule2origin[:3, 2]) + radius *)
@@ -72,23 +79,20 @@ Section Aabb.
     let extent := V (ext (r0 E)) (ext (r1 E)) (ext (r2 E)) in
     (vsub (trans T) extent, vadd (trans T) extent).
 
-  (** disk_aabb: e = radius * np.sqrt(np.maximum(0.0, 1.0 - normal * normal)) *)
+  (** disk_aabb: e = radius * _circle_extent(normal) *)
   Definition disk_aabb (center : V3 F) (radius : F) (normal : V3 F) : V3 F * V3 F :=
-    let e := vscale radius (vsqrt (vclamp0 (vone_minus (vmul normal normal)))) in
+    let e := vscale radius (circle_extent normal) in
     (vsub center e, vadd center e).
 
   (** cone_aabb:
-        pa = cone2origin[:3, 3]; pb = pa + height * cone2origin[:3, 2]; a = pb - pa
-        e = np.sqrt(np.maximum(0.0, 1.0 - a * a / (height * height)))
+        pa = cone2origin[:3, 3]; pb = pa + height * cone2origin[:3, 2]
+        e = _circle_extent(cone2origin[:3, 2])
         np.minimum(pa - e * radius, pb), np.maximum(pa + e * radius, pb) *)
   Definition cone_aabb (T : Pose F) (radius height : F) : V3 F * V3 F :=
     let pa := trans T in
     let pb := vadd (trans T) (vscale height (col (rot T) 2)) in
-    let a := vsub pb pa in
-    let hh := height * height in
-    let q := vmul a a in
-    let e := vsqrt (vclamp0 (vone_minus (V (vx q / hh) (vy q / hh) (vz q / hh)))) in
-    let er := vscale radius e in                              (* e * radius *)
+    let e := circle_extent (col (rot T) 2) in
+    let er := vmul e (V radius radius radius) in              (* e * radius *)
     (vmin (vsub pa er) pb, vmax (vadd pa er) pb).
 
   (** ellipse_aabb: extent = np.sqrt((radii[0] * axes[0]) ** 2 + (radii[1] * axes[1]) ** 2) *)
